@@ -65,8 +65,8 @@ PROPS = {
         "assumptions": ["`wf` of the operands: C20", "generic theorem: dense order without end points (instance Rat); at Val: bounds separated from version 0 and from NUL-terminated strings (failure shapes proved)"],
     },
     "C20": {
-        "lean_targets": ["Pep508.Theorems.C20", "Pep508.Theorems.NonVacuityA"],
-        "theorems": [
+        "lean_targets": ["Pep508.Theorems.Tables", "Pep508.Theorems.C20", "Pep508.Theorems.NonVacuityA"],
+        "theorems": ["Pep508.Tables.variable_order", "Pep508.Tables.string_key_order", "Pep508.Tables.version_key_order", 
             "Pep508.C20.wf_true", "Pep508.C20.wf_false", "Pep508.C20.wf_and", "Pep508.C20.wf_or", "Pep508.C20.wf_not",
             "Pep508.C20.apply_ranges_nonempty", "Pep508.C20.wf_covers", "Pep508.PartL_product", "Pep508.partitionFrom_coalesce",
             "Pep508.wf_node_map", "Pep508.wf_createNodeR",
